@@ -12,7 +12,7 @@ C1 == [rate |-> 90000]
 NtpW == <<43690, 4660, 22136, 52719>>          \* 0xAAAA 0x1234 0x5678 0xCDEF -> LSR = 0x12345678
 SeqD == IF Alpha = 1
         THEN {1, 2, 3, Hist - 1, Hist, Hist + 1, H - 1, 0, -1, -2, -(Hist - 1), -Hist, -(Hist + 1), -H}
-        ELSE {1, 2, 0, -1, Hist + 1, -Hist}
+        ELSE {1, 2, 0, -1, Hist - 3, -(Hist - 1)}     \* Hist - 3 closes an interval of exactly Hist numbers after the warm-up
 Timing == IF Alpha = 1 THEN {<<2970, 33>>, <<0, 0>>, <<-3000, 1>>, <<4000000, 1000>>}
           ELSE {<<2970, 33>>, <<-3000, 0>>}
 Ev(a, s, w, ts, t) == [a |-> a, s |-> s, w |-> w, ts |-> ts, t |-> t, ntp |-> NtpW, rate |-> 0]
